@@ -102,12 +102,14 @@ func (f *fieldSelectionMergingVisitor) EnterField(ref int) {
 	path := f.Path.WithoutInlineFragmentNames()
 
 	fieldName := f.operation.FieldNameBytes(ref)
-	if bytes.Equal(fieldName, literal.TYPENAME) {
-		return
-	}
 	objectName := f.operation.FieldAliasOrNameBytes(ref)
 	definition, ok := f.definition.NodeFieldDefinitionByName(f.EnclosingTypeDefinition, fieldName)
 	if !ok {
+		if bytes.Equal(fieldName, literal.TYPENAME) {
+			// the schema was not extended with the __typename meta field (asttransform.TypeNameVisitor):
+			// without its definition there is nothing to compare
+			return
+		}
 		enclosingTypeName := f.definition.NodeNameBytes(f.EnclosingTypeDefinition)
 		f.StopWithExternalErr(operationreport.ErrFieldUndefinedOnType(fieldName, enclosingTypeName))
 		return
